@@ -323,11 +323,14 @@ theorem qualify_eq (nsP pat : Bytes) : ∃ rest, qualify nsP pat = nsP ++ rest :
 
 theorem aclAllows_scope (t : Tok) (reqNs rel : Bytes) (isList : Bool) (hns : CanonNs t.ns)
     (h : aclAllows t reqNs rel isList = true) :
-    (t.isRoot = true → hasParent reqNs t.ns = true) ∧ (t.isRoot = false → t.ns <+: reqNs ++ rel) := by
+    (t.isRoot = true → hasParent reqNs t.ns = true ∨ t.ns <+: reqNs ++ rel) ∧ (t.isRoot = false → t.ns <+: reqNs ++ rel) := by
   unfold aclAllows at h
   split at h
   · rename_i hr
-    exact ⟨fun _ => h, fun hf => by rw [hr] at hf; cases hf⟩
+    refine ⟨fun _ => ?_, fun hf => by rw [hr] at hf; cases hf⟩
+    rcases Bool.or_eq_true_iff.mp h with h | h
+    · exact Or.inl h
+    · exact Or.inr (List.isPrefixOf_iff_prefix.mp h)
   · rename_i hr
     refine ⟨fun ht => absurd ht hr, fun _ => ?_⟩
     simp only [List.any_map, List.any_eq_true, Function.comp] at h
